@@ -58,7 +58,8 @@ def _std_tolerance(std_exact, ex2):
     return 1e-12 * std_exact + dvar / std_exact
 
 
-def _check_normalised(what, ys, xs_int, dim, mean, s_eff, relstd, dtype, denom_kind, n_pool, spread):
+def _check_normalised(what, ys, xs_int, dim, mean, s_eff, relstd, dtype, denom_kind, n_pool, spread,
+                      pooled_mean=True):
     """ys / xs_int: lists of ndarrays (observed float64 copies / integer numerators); mean: list of
     Fractions; s_eff: list of floats (max(std, eps)); relstd: list of extra relative uncertainty of
     s_eff; spread: per-coefficient bool (std > 0 and std >= eps, i.e. unit variance is promised).
@@ -71,9 +72,9 @@ def _check_normalised(what, ys, xs_int, dim, mean, s_eff, relstd, dtype, denom_k
     sum_y2 = [0.0] * X
     max_tol = [0.0] * X
     n = 0
+    overflow = False
     for y, xi in zip(ys, xs_int):
         require(list(y.shape) == list(xi.shape), what + ": output shape", list(y.shape), list(xi.shape))
-        require(bool(np.isfinite(y).all()), what + ": non-finite output", y.tolist(), "finite")
         ym = np.moveaxis(y, dim, -1).reshape(-1, X)
         xm = np.moveaxis(xi, dim, -1).reshape(-1, X)
         n += ym.shape[0]
@@ -81,9 +82,13 @@ def _check_normalised(what, ys, xs_int, dim, mean, s_eff, relstd, dtype, denom_k
             m = float(mean[i])
             for f in range(ym.shape[0]):
                 exp = float(Fraction(int(xm[f, i]), Q) - mean[i]) / s_eff[i]
+                if abs(exp) > 1e30 or abs(m) / s_eff[i] > 1e30:
+                    # (x - mean) / eps with a tiny eps: the documented quotient is not representable
+                    overflow = True
+                    continue
                 tol = (c + relstd[i]) * (abs(exp) + abs(m) / s_eff[i]) + 1e-30
                 obs = float(ym[f, i])
-                if abs(obs - exp) > tol:
+                if not math.isfinite(obs) or abs(obs - exp) > tol:
                     require(False, "%s: y != (x - mean) / max(std, eps) at frame %d coefficient %d" % (what, f, i),
                             obs, exp)
                 sum_y[i] += obs
@@ -91,6 +96,8 @@ def _check_normalised(what, ys, xs_int, dim, mean, s_eff, relstd, dtype, denom_k
                 max_tol[i] = max(max_tol[i], tol)
     for i in range(X):
         my = sum_y[i] / n
+        if not pooled_mean or overflow:
+            continue  # the mean was supplied by the caller: nothing is promised about the pooled output
         require(abs(my) <= max_tol[i] + 1e-12, "%s: pooled mean of normalised coefficient %d is not 0" % (what, i), my, 0.0)
         if spread[i]:
             nd = n - 1 if denom_kind == "bessel" else n
@@ -276,7 +283,7 @@ def _check_own(case, what, y, part_int, own, eps_v, mean_override=None, std_over
     spread = [std_override is None and mean_override is None and s > 0.0 and s >= eps_v for s in std]
     # a coefficient whose spread is zero must come out as exactly 0 / eps = 0
     _check_normalised(what, [y.double().numpy()], [part_int], dim % case["rank"], mean, s_eff, relstd, dtype,
-                      "biased", n, spread)
+                      "biased", n, spread, pooled_mean=mean_override is None)
 
 
 # ====================================================================== MVN: the formula with given / missing statistics
@@ -358,7 +365,7 @@ def _deltas(draw, tier):
     time_dim = draw(st.integers(-rank, rank - 1))
     drank = rank if concatenate else rank + 1
     dim = draw(st.integers(-drank, drank - 1))
-    order = draw(st.sampled_from([2, 1, 3, 0]))
+    order = draw(st.sampled_from([2, 3, 1, 2, 0, 3]))
     width = draw(st.sampled_from([2, 1, 3]))
     mode = draw(st.sampled_from(PAD_MODES))
     P = order * width
@@ -399,7 +406,8 @@ def _deltas_check(case):
     order, width, mode = case["order"], case["width"], case["pad_mode"]
     value = case["value"] / Q
     if case["api"] == "module":
-        out = FeatureDeltas(dim, time_dim, concatenate, order, width, mode, value)(x)
+        # like every torch module, the layer's (filter) buffers have to be of the input's type
+        out = FeatureDeltas(dim, time_dim, concatenate, order, width, mode, value).to(x.dtype)(x)
     else:
         out = feat_deltas(x, dim, time_dim, concatenate, order, width, mode, value)
     td = time_dim % rank
@@ -418,7 +426,7 @@ def _deltas_check(case):
         k = tuple(int(i) for i in bad[0])
         require(False, "delta value at %r differs from the regression formula" % (k,), float(obs[k]), float(exp[k]))
     classes = ["order_%d" % order, mode, "concat" if concatenate else "stack", dtype]
-    if order >= 2 and not concatenate and dd != (td if dd <= td else td + 1):
+    if order >= 2 and not concatenate and dd != td:
         classes.append("order>=2_stack_dim!=time")
     if concatenate and dd == td:
         classes.append("concat_on_time_dim")
@@ -548,8 +556,10 @@ def _cli_check(case):
         os.makedirs(d)
         for f, a in zip(files, arrays):
             torch.save(_tensor(a, dtype), os.path.join(d, case["prefix"] + f["id"] + case["suffix"]))
-        if case["junk"]:
-            with open(os.path.join(d, "README.txt~"), "w") as fh:
+        junk = "README.txt~"
+        if case["junk"] and not (junk.startswith(case["prefix"]) and junk.endswith(case["suffix"])):
+            # a file that does not carry the prefix and suffix is not part of the feature directory
+            with open(os.path.join(d, junk), "w") as fh:
                 fh.write("not a feature file\n")
         out = os.path.join(tmp, "stats.pt")
         args = [d, out, "--file-prefix", case["prefix"], "--file-suffix", case["suffix"],
